@@ -410,3 +410,39 @@ pub fn job(
         }),
     }
 }
+
+/// Makes the raw peer on `c` an echo peer: every complete message the library
+/// writes to it is sent back verbatim (REP-like behaviour towards REQ/DEALER).
+pub fn make_echo_peer(c: RawConn) {
+    let to_lib = c.to_lib;
+    let mut answered = 0usize;
+    world::set_sink(
+        c.from_lib,
+        Box::new(move |tap: &[u8]| {
+            let msgs = rc::decode_stream(tap, true).messages();
+            let mut out = Vec::new();
+            while answered < msgs.len() {
+                out.push((to_lib, Chunk::Data(rc::encode_message(&msgs[answered]))));
+                answered += 1;
+            }
+            out
+        }),
+    );
+}
+
+pub fn ok_or_err<T>(r: &ZmqResult<T>) -> String {
+    match r {
+        Ok(_) => "Ok".to_string(),
+        Err(e) => format!("Err({})", err_class(e)),
+    }
+}
+
+/// Canonical form of the observation log for outcome hashing: step stamps and
+/// environment bookkeeping lines removed.
+pub fn canon_log() -> Vec<String> {
+    world::log_snapshot()
+        .iter()
+        .filter(|l| !l.contains(" env ") && !l.contains(" nested "))
+        .map(|l| l.splitn(2, ' ').nth(1).unwrap_or("").to_string())
+        .collect()
+}
